@@ -228,7 +228,8 @@ PROPS = {
               "group keyword, explicit Boolean, namespace / include / imports headers) read by UVLReader and "
               "by [uvl_read_cst] on the real parse tree; oracle: the model read = the reference model the document was emitted "
               "from. suite P-uvl-invalid: documents made invalid by one defect (unbalanced bracket, stray operator, misspelt section keyword, "
-              "group keyword with children at the same level, stray '|') must raise a library error and never return a model"),
+              "group keyword with children at the same level, stray '|', bracket left open on the last constraint line, operator "
+              "without operand at the end of a constraint line — the last two are reported by the parser at a line break) must raise a library error and never return a model"),
         assumptions=["which texts the external parser rejects is sampled, not proved (negative half PARTIAL)"],
         trusted=["external: uvlparser + antlr4 runtime; harness conversion of the ANTLR tree"],
     ),
